@@ -4,6 +4,7 @@ import CprocVerif.Lemmas.PPString
 import CprocVerif.Lemmas.PPFuel
 import CprocVerif.Lemmas.PPInv
 import CprocVerif.Lemmas.PPObjMain
+import CprocVerif.Lemmas.PPArgs
 
 /-!
 # C12 — macro definition and expansion follow C11 6.10.3 on the implemented subset
@@ -324,5 +325,104 @@ example : (run 40 stObj).2 = none := by decide +kernel
 example : runKeys (run 40 stObj).1 =
     [(.TIDENT, some b!"A"), (.TIDENT, some b!"y"), (.TIDENT, some b!"x"), (.TIDENT, some b!"C"),
      (.TIDENT, some b!"B"), (.TIDENT, some b!"x"), (.TIDENT, some b!"y")] := by decide +kernel
+
+
+/-! ## 7. Argument collection (6.10.3p10–p12)
+
+`collect ps i paren cur done ts` is the pair of nested loops of `expandfunc` on a token list `ts`
+(each token at invocation level, `expand` declining it): same tests in the same order as
+`efLoopBody` — parenthesis count, comma unless the parameter is `...`, the two count checks. -/
+
+/-- **The collected arguments are the top-level-comma split of the parenthesised token list,
+variadic tail joined**: whenever the loops accept, the `)` they stop at is the one the reference
+finds as matching (`matchParen`), and the arguments are what the reference's `splitTop` cuts out of
+the tokens in between — at every comma outside nested parentheses, but at most as many times as
+there are named parameters when the last parameter is `...` (6.10.3p12). -/
+theorem split_args_correct (ps : List Param) (hv : VarLast ps) (hne : 0 < ps.length)
+    (ts : List Tok) (args : List (List Tok)) (rest : List Tok)
+    (h : collect ps 0 0 [] [] ts = .ok (args, rest)) :
+    ∃ seg rp, ts = seg ++ rp :: rest ∧ rp.kind = .TRPAREN ∧
+      MacroRef.matchParen (ts.map iT) 0 [] = some (seg.map hT, hT rp, rest.map iT, false) ∧
+      args.map (·.map hT) = MacroRef.splitTop (splitsLeft ps 0 seg) 0 (seg.map hT) [] := by
+  obtain ⟨seg, rp, h1, h2, h3, h4⟩ := collect_spec ps hv ts 0 0 [] [] args rest hne h
+  exact ⟨seg, rp, h1, h2, h3, by simpa using h4⟩
+
+def pA : Param := { name := b!"a", ftok := true }
+def pV : Param := { name := b!"__VA_ARGS__", ftok := true, fvar := true }
+-- non-vacuity: `(a, ...)` applied to `1 , ( 2 , 3 ) , 4 ) x`: two arguments, `1` and `( 2 , 3 ) , 4`
+example : VarLast [pA, pV] := by
+  intro j hj
+  have : j = 0 := by simp at hj; omega
+  subst this; rfl
+def errOf {α : Type} (r : Except Err α) : Option Err :=
+  match r with
+  | .error e => some e
+  | .ok _ => none
+
+example : (collect [pA, pV] 0 0 [] []
+    [num b!"1", tk .TCOMMA, tk .TLPAREN, num b!"2", tk .TCOMMA, num b!"3", tk .TRPAREN, tk .TCOMMA, num b!"4",
+     tk .TRPAREN, ident b!"x"]).toOption =
+    some ([[num b!"1"], [tk .TLPAREN, num b!"2", tk .TCOMMA, num b!"3", tk .TRPAREN, tk .TCOMMA, num b!"4"]],
+         [ident b!"x"]) := by decide +kernel
+-- a surplus argument, a missing one, an unterminated invocation
+example : errOf (collect [pA] 0 0 [] [] [num b!"1", tk .TCOMMA, tk .TRPAREN]) = some .tooManyArgs := by decide +kernel
+example : errOf (collect [pA, pA] 0 0 [] [] [num b!"1", tk .TRPAREN]) = some .notEnoughArgs := by decide +kernel
+example : errOf (collect [pA] 0 0 [] [] [tk .TLPAREN, num b!"1"]) = some .eofInArgs := by decide +kernel
+
+/-! ## 8. Function-like macros: the full statement, and why it is false today
+
+Full strength: on every translation unit on which both complete, model and reference deliver the
+same tokens.  It holds for units with object-like macros (`object_like_correct`), and its
+function-like ingredients are proved separately (`split_args_correct`, `stringize_correct`,
+`painted_never_expands`, `too_many_args_rejected`, `define_*`); as a whole it is false of the
+current tree, by the recorded known findings: -/
+
+def unit_correct_full : Prop :=
+  ∀ (unit : List Tok) (n k : Nat),
+    (run n (St.init unit false)).2 = none → (MacroRef.expandUnit k (unit.map toP)).err = none →
+    runKeys (run n (St.init unit false)).1 = (MacroRef.expandUnit k (unit.map toP)).toks.map (fun t => kwKey t.key)
+
+def HASH : Tok := tk .THASH
+def EOFT : Tok := tk .TEOF
+
+/-- `#define N(x) x` / `#define M(p) p #p` / `M(N(2))`  (known finding `stringize-nested-call`) -/
+def unitNested : List Tok :=
+  [HASH, ident b!"define", ident b!"N" true, tk .TLPAREN, ident b!"x", tk .TRPAREN, ident b!"x" true, NL,
+   HASH, ident b!"define", ident b!"M" true, tk .TLPAREN, ident b!"p", tk .TRPAREN, ident b!"p" true,
+     tk .THASH none true, ident b!"p", NL,
+   ident b!"M", tk .TLPAREN, ident b!"N", tk .TLPAREN, num b!"2", tk .TRPAREN, tk .TRPAREN, NL, EOFT]
+
+/-- the model (like pp.c) delivers `2 "N"`, C11 6.10.3.2p2 demands `2 "N(2)"` -/
+theorem unit_correct_counterexample : ¬ unit_correct_full := by
+  intro h
+  have := h unitNested 200 200 (by decide +kernel) (by decide +kernel)
+  revert this
+  decide +kernel
+
+/-- `#define S(x) #x` / `#define T(y) S(a y+b)` / `T()`  (known finding `empty-expansion-space`):
+the model delivers `"a+b"`, the reference `"a +b"` -/
+def unitEmptySpace : List Tok :=
+  [HASH, ident b!"define", ident b!"S" true, tk .TLPAREN, ident b!"x", tk .TRPAREN, tk .THASH none true, ident b!"x", NL,
+   HASH, ident b!"define", ident b!"T" true, tk .TLPAREN, ident b!"y", tk .TRPAREN, ident b!"S" true, tk .TLPAREN,
+     ident b!"a", ident b!"y" true, tk .TADD, ident b!"b", tk .TRPAREN, NL,
+   ident b!"T", tk .TLPAREN, tk .TRPAREN, NL, EOFT]
+
+theorem empty_expansion_space_witness :
+    runKeys (run 200 (St.init unitEmptySpace false)).1 = [(.TSTRINGLIT, some b!"\"a+b\"")] ∧
+    (MacroRef.expandUnit 200 (unitEmptySpace.map toP)).toks.map (·.key) = [(.TSTRINGLIT, some b!"\"a +b\"")] := by
+  decide +kernel
+
+/-- units on which the full statement does hold are not rare: e.g. a variadic macro with an
+argument containing parentheses and commas, stringification, self reference:
+`#define F(x, ...) #x __VA_ARGS__ F` / `F(a + 1, (3, 4), 5)` -/
+def unitFine : List Tok :=
+  [HASH, ident b!"define", ident b!"F" true, tk .TLPAREN, ident b!"x", tk .TCOMMA, tk .TELLIPSIS, tk .TRPAREN,
+     tk .THASH none true, ident b!"x", ident b!"__VA_ARGS__" true, ident b!"F" true, NL,
+   ident b!"F", tk .TLPAREN, ident b!"a", tk .TADD none true, num b!"1", tk .TCOMMA, tk .TLPAREN, num b!"3",
+     tk .TCOMMA, num b!"4", tk .TRPAREN, tk .TCOMMA, num b!"5", tk .TRPAREN, NL, EOFT]
+
+example : (run 120 (St.init unitFine false)).2 = none ∧
+    runKeys (run 120 (St.init unitFine false)).1 =
+      (MacroRef.expandUnit 120 (unitFine.map toP)).toks.map (fun t => kwKey t.key) := by decide +kernel
 
 end CprocVerif.C12
